@@ -126,9 +126,7 @@ func (c *jrCase) run() (z.ZogIssueMap, *jrUser) {
 func (c *jrCase) secondAbsent() bool { return c.how != jrPresent }
 
 // want: the reference issues of the records that are present in the document, path -> code.
-// (Leaves of a record that is missing, null or {}: a Struct's leaves are required -> two
-// required issues under "work_rec."; a nil Ptr record gives none. Their keys are not pinned
-// here beyond the prefix: see the known finding of C10.)
+// (The leaf of a record that is missing, null or {}: see absentIssues / absentKey.)
 func (c *jrCase) want() map[string]string {
 	w := map[string]string{}
 	if !(5 > c.g) {
@@ -167,7 +165,7 @@ func (c *jrCase) issuesOK(errs z.ZogIssueMap) bool {
 			seen++
 			continue
 		}
-		if c.absentIssues() == 1 && (strings.HasPrefix(k, "work") || strings.HasPrefix(k, "alt")) {
+		if c.absentIssues() == 1 && k == c.absentKey() {
 			for _, i := range l {
 				if i.Code != "required" {
 					return false
@@ -182,6 +180,15 @@ func (c *jrCase) issuesOK(errs z.ZogIssueMap) bool {
 		return false
 	}
 	return absent == c.absentIssues()
+}
+
+// absentKey: the leaf of a record that is missing, null or {} in the document is reported under
+// the keys a present record would have: the json tags, at both depths
+func (c *jrCase) absentKey() string {
+	if c.layout == 0 {
+		return "work_rec.zip_code"
+	}
+	return "alt_rec.zip_code"
 }
 
 // absentIssues: the required issues of the second record's leaf when the document has no value
@@ -254,7 +261,7 @@ func jrCheck(prop string) {
 		for k, l := range errs {
 			for _, i := range l {
 				if k != "$first" && i.Code == "required" {
-					v.Assert(c.absentIssues() == 1 && (strings.HasPrefix(k, "work") || strings.HasPrefix(k, "alt")), "C04:present-value-treated-as-absent")
+					v.Assert(c.absentIssues() == 1 && (strings.HasPrefix(k, "work_rec.") || strings.HasPrefix(k, "alt_rec.")), "C04:present-value-treated-as-absent")
 				}
 			}
 		}
